@@ -205,6 +205,15 @@ fn str_expr(r: &mut Rng, d: usize) -> Value {
 }
 
 fn arr_expr(r: &mut Rng, d: usize) -> Value {
+    // now and then something that is NOT a collection (the operators must reject it, every time)
+    if r.chance(1, 10) {
+        return match r.below(4) {
+            0 => var("s"),
+            1 => var("o"),
+            2 => var("i"),
+            _ => var("b"),
+        };
+    }
     match r.below(8) {
         0 => var("xs"),
         1 => var("ss"),
